@@ -147,7 +147,8 @@ def st_spec(name, D, N, *, orders=(1, 2, 3, 4), dt=None, L=None, contour=False, 
         d[k] = st.integers(1, kmax) if isinstance(v, str) and v == "MODE" else v
     extra = {}
     if name not in LINEAR_FAMILIES:
-        extra["order"] = st.sampled_from(list(orders))
+        # Hypothesis tries the first element first: start with the default order 2, order 0 last
+        extra["order"] = st.sampled_from(sorted(orders, key=lambda o: (o == 0, o != 2, o)))
         if contour:
             extra["_contour"] = st.sampled_from(CONTOURS)
         if frac_choice and "dealiasing_fraction" not in fixed:
